@@ -87,6 +87,10 @@ type propDriver struct {
 }
 
 var propDrivers = map[string]*propDriver{
+	"C06": {safe: true, notes: []string{
+		"C06 claims: absence of run-time panics (index, slice bounds, nil dereference, failed type assertion, division, make with negative length) for every repository function under its contract, callee preconditions at every call site, and value-xor-error for every constructor",
+		"termination is proved only implicitly for unit-stride loops (the auto-summary bounds the iteration count by the loop guard); while-style loops and the time bound (at most quadratic) are not decided by this technique",
+	}},
 	"C19": {extra: func(w *World, tier string) []VC { return w.frameVCs() },
 		notes: []string{
 			"C19 is decided as a frame condition: every write site of every repository function is shown to hit activation-fresh memory by a freshness dataflow over the SSA (back end govc-dataflow, not SMT)",
